@@ -33,6 +33,9 @@
 #ifndef LRU_LEN
 #define LRU_LEN 4          /* buckets in the pre-state (concrete per unit) */
 #endif
+#ifndef LRU_SCEN
+#define LRU_SCEN 0
+#endif
 #define LRU_M (LRU_N + 2)  /* handles the harness tracks: pre-state + one detached + one inserted */
 
 /* ------------------------------------------------------------------ ghost */
@@ -42,17 +45,19 @@ struct lru_ghost {
   int locks, unlocks, lock_err;
   int guard;                       /* 1: malloc/free/deleter/memcmp must run under a mutex */
   int guard_err;
+  int next_is_handle; size_t handle_n;
+  int statics;                     /* 1: scenario mode, objects are static (see build_shard_scen) */
   int mallocs; void *last_malloc; size_t last_malloc_n; void *mal[3];
   int frees; void *freed[LRU_M + 2];
   int dels; void *del_value[LRU_M + 2]; size_t del_klen[LRU_M + 2]; uint8_t del_key[LRU_M + 2][LRU_K + 1];
   int del_after_free;              /* deleter ran on an already freed handle's key     */
-  int hashes; const uint8_t *hash_data; size_t hash_size; uint32_t hash_seed;
+  int hashes; const uint8_t *hash_data; size_t hash_size; uint32_t hash_seed, hash_ret;
 } X;
 
 static void ghost_reset(void) {
   int i;
   X.held = NULL; X.last = NULL; X.locks = 0; X.unlocks = 0; X.lock_err = 0; X.guard = 0; X.guard_err = 0;
-  X.mal[0] = X.mal[1] = X.mal[2] = NULL;
+  X.mal[0] = X.mal[1] = X.mal[2] = NULL; X.next_is_handle = 0; X.handle_n = 0; X.statics = 0;
   X.mallocs = 0; X.last_malloc = NULL; X.last_malloc_n = 0; X.frees = 0; X.dels = 0; X.del_after_free = 0;
   X.hashes = 0; X.hash_data = NULL; X.hash_size = 0; X.hash_seed = 0;
   for (i = 0; i < LRU_M + 2; i++) { X.freed[i] = NULL; X.del_value[i] = NULL; X.del_klen[i] = 0; }
@@ -70,21 +75,13 @@ void ldb_mutex_destroy(ldb_mutex_t *m) { (void)m; }
 void ldb_mutex_lock(ldb_mutex_t *m) { if (X.held != NULL) X.lock_err = 1; X.held = m; X.last = m; X.locks++; }
 void ldb_mutex_unlock(ldb_mutex_t *m) { if (X.held != m) X.lock_err = 1; X.held = NULL; X.unlocks++; }
 
-void *ldb_malloc(size_t n) {
-  void *p = malloc(n);
-  __CPROVER_assume(p != NULL);
-  if (X.guard && X.held == NULL) X.guard_err = 1;
-  if (X.mallocs < 3) X.mal[X.mallocs] = p;
-  X.mallocs++; X.last_malloc = p; X.last_malloc_n = n;
-  return p;
-}
 void ldb_free(void *p) {
   if (X.guard && X.held == NULL) X.guard_err = 1;
   if (p != NULL) {
     __CPROVER_assert(X.frees < LRU_M + 2, "ldb_free: more frees than objects the harness handed out");
     __CPROVER_assume(X.frees < LRU_M + 2);
     X.freed[X.frees++] = p;
-    free(p);
+    if (!X.statics) free(p);
   }
 }
 
@@ -108,17 +105,55 @@ static int bytes_eq(const uint8_t *a, const uint8_t *b, size_t n) {
 uint32_t ldb_hash(const uint8_t *data, size_t size, uint32_t seed) {
   int i;
   X.hashes++; X.hash_data = data; X.hash_size = size; X.hash_seed = seed;
+  X.hash_ret = nondet_u32();
   for (i = 0; i < 2; i++)
-    if (HK[i].used && HK[i].n == size && bytes_eq(HK[i].b, data, size)) return HK[i].v;
-  return nondet_u32();
+    if (HK[i].used && HK[i].n == size && bytes_eq(HK[i].b, data, size)) { X.hash_ret = HK[i].v; break; }
+  return X.hash_ret;
 }
 
 #include "util/cache.c"
+
+#define I_NEW (LRU_N)          /* G[] index of the handle created by an insert */
+#define I_DET (LRU_N + 1)      /* G[] index of a handle erased from the cache but still held by a client */
+static lru_handle_t HB[LRU_M];                 /* scenario mode: the handles */
+static lru_handle_t *ARR0[8], *ARR1[8];        /* scenario mode: bucket array of the pre-state / of a resize */
+
+void *ldb_malloc(size_t n) {
+  void *p;
+  if (X.statics) {                  /* scenario mode: static objects, so that symex keeps every pointer a constant */
+    if (X.next_is_handle) { X.next_is_handle = 0; X.handle_n = n; p = &HB[I_NEW]; __CPROVER_assert(n <= sizeof(HB[0]), "ldb_malloc model: handle with a key of <= 1 byte"); }
+    else { p = ARR1; __CPROVER_assert(n <= sizeof(ARR1) && X.mallocs <= 1, "ldb_malloc model: one bucket array of <= 8 slots"); }
+    if (X.guard && X.held == NULL) X.guard_err = 1;
+    if (X.mallocs < 3) X.mal[X.mallocs] = p;
+    X.mallocs++; X.last_malloc = p; X.last_malloc_n = n;
+    return p;
+  }
+#ifdef LRU_TYPED
+  /* The handle lru_shard_insert allocates (sizeof(lru_handle_t) - 1 + key size, a byte object of symbolic size for
+   * CBMC) is handed out as a struct-typed object of sizeof(lru_handle_t) bytes, which has room for keys of 0..1
+   * bytes; the harness checks the requested size against header + key separately (X.handle_n). */
+  if (X.next_is_handle && n <= sizeof(lru_handle_t)) { X.next_is_handle = 0; X.handle_n = n; p = malloc(sizeof(lru_handle_t)); }
+  else
+#endif
+  p = malloc(n);
+  __CPROVER_assume(p != NULL);
+  if (X.guard && X.held == NULL) X.guard_err = 1;
+  if (X.mallocs < 3) X.mal[X.mallocs] = p;
+  X.mallocs++; X.last_malloc = p; X.last_malloc_n = n;
+  return p;
+}
 
 /* ---------------------------------------------------------- state builder */
 struct lru_snap { uint32_t refs, hash; int in_cache; size_t charge, klen; void *value; uint8_t key[LRU_K + 1]; int lru_pos; };
 static lru_handle_t *G[LRU_M];        /* every handle the harness knows                     */
 static lru_handle_t **g_list0;        /* the bucket array of the pre-state                  */
+/* field f of handle i for a symbolic index i, as an explicit case split over constant indices (a pointer G[i] with
+ * symbolic i makes CBMC read the handles through a byte-level view when they are elements of one static array) */
+#if LRU_M <= 5
+#define HF(i, f) ((i) == 0 ? G[0]->f : (i) == 1 ? G[1]->f : (i) == 2 ? G[2]->f : (i) == 3 ? G[3]->f : G[4]->f)
+#else
+#define HF(i, f) ((i) == 0 ? G[0]->f : (i) == 1 ? G[1]->f : (i) == 2 ? G[2]->f : (i) == 3 ? G[3]->f : (i) == 4 ? G[4]->f : (i) == 5 ? G[5]->f : G[6]->f)
+#endif
 static struct lru_snap S[LRU_M];      /* their pre-state                                    */
 static int g_n;                       /* number of handles in the table in the pre-state    */
 static int g_val[LRU_M + 2];          /* distinct value cookies                             */
@@ -193,7 +228,7 @@ static void tbl_scan_at(lru_handle_t *const *list, uint32_t length) {
     for (s = 0; s < LRU_M; s++) if (q != NULL && !T.bad) {
       i = idx_of(q);
       if (i < 0 || was_freed(q)) T.bad = 1;
-      else { T.cnt[i]++; T.bkt[i] = b; T.pos[i] = s; T.total++; q = G[i]->next_hash; }   /* via G[]: q's value set may include the shard's list heads */
+      else { T.cnt[i]++; T.bkt[i] = b; T.pos[i] = s; T.total++; q = HF(i, next_hash); }   /* via G[]: q's value set may include the shard's list heads */
     }
     if (q != NULL) T.bad = 1;
   }
@@ -435,9 +470,6 @@ void h_tbl_resize(void) {
  */
 static lru_shard_t g_shard;
 #define SH (&g_shard)
-#define I_NEW (LRU_N)          /* G[] index of the handle created by an insert */
-#define I_DET (LRU_N + 1)      /* G[] index of a handle erased from the cache but still held by a client */
-
 static struct lst_scan { int cnt[2][LRU_M]; int pos[2][LRU_M]; int len[2]; int bad[2]; } L;
 
 #pragma CPROVER check push
@@ -453,14 +485,14 @@ static const lru_handle_t *nxt(const lru_handle_t *p) {
   if (p == &SH->list) return SH->list.next;
   if (p == &SH->in_use) return SH->in_use.next;
   i = idx_of(p);
-  return i >= 0 ? G[i]->next : NULL;
+  return i >= 0 ? HF(i, next) : NULL;
 }
 static const lru_handle_t *prv(const lru_handle_t *p) {
   int i;
   if (p == &SH->list) return SH->list.prev;
   if (p == &SH->in_use) return SH->in_use.prev;
   i = idx_of(p);
-  return i >= 0 ? G[i]->prev : NULL;
+  return i >= 0 ? HF(i, prev) : NULL;
 }
 static void lst_scan(const lru_handle_t *head, int w) {
   const lru_handle_t *p = head, *q; int s, i, closed = 0;
@@ -471,7 +503,7 @@ static void lst_scan(const lru_handle_t *head, int w) {
     if (q == head) { if (prv(q) != p) L.bad[w] = 1; closed = 1; }
     else {
       i = idx_of(q);
-      if (i < 0 || was_freed(q) || G[i]->prev != p) L.bad[w] = 1;
+      if (i < 0 || was_freed(q) || HF(i, prev) != p) L.bad[w] = 1;
       else { L.cnt[w][i]++; L.pos[w][i] = s; L.len[w]++; p = q; }
     }
   }
@@ -504,10 +536,15 @@ static void check_rep(void) {
  * index makes CBMC read S through a byte-level view of the whole array (measured: wrong byte values). */
 /* handle j is exactly as it was */
 static int unchanged(int j) {
-  const lru_handle_t *h = G[j]; struct lru_snap s = S[j];
-  if (was_freed(h)) return 0;
-  return h->refs == s.refs && h->in_cache == s.in_cache && h->charge == s.charge && h->hash == s.hash &&
-         h->key_length == s.klen && h->value == s.value && h->deleter == model_deleter && bytes_eq(h->key_data, s.key, s.klen);
+  struct lru_snap s = S[j];
+  if (was_freed(G[j])) return 0;
+  return HF(j, refs) == s.refs && HF(j, in_cache) == s.in_cache && HF(j, charge) == s.charge && HF(j, hash) == s.hash &&
+         HF(j, key_length) == s.klen && HF(j, value) == s.value && HF(j, deleter) == model_deleter &&
+#if LRU_K <= 1
+         (s.klen == 0 || HF(j, key_data[0]) == s.key[0]);
+#else
+         bytes_eq(G[j]->key_data, s.key, s.klen);
+#endif
 }
 /* number of deleter calls for handle j (values are distinct cookies); *keyok: the last one got j's key */
 static int del_calls(int j, int *keyok) {
@@ -532,7 +569,7 @@ static int not_destroyed(int j) {
 static int finished(int j) {
   struct lru_snap s = S[j];
   if (s.refs == 1) return destroyed(j);
-  return not_destroyed(j) && G[j]->in_cache == 0 && G[j]->refs == s.refs - 1 && G[j]->value == s.value && G[j]->key_length == s.klen;
+  return not_destroyed(j) && HF(j, in_cache) == 0 && HF(j, refs) == s.refs - 1 && HF(j, value) == s.value && HF(j, key_length) == s.klen;
 }
 static int mutex_ok(void) {
   return X.locks == 1 && X.unlocks == 1 && X.last == &SH->mutex && X.held == NULL && !X.lock_err && !X.guard_err;
@@ -768,23 +805,21 @@ void h_prune(void) {
 }
 
 /* ============================================================== lru.insert */
-void h_insert(void) {
-  ldb_slice_t key; uint8_t *kd; lru_handle_t *e; int in_n = pick_n(), i, same = -1, nfreed = 0, last = -1; size_t usage0;
-  IN_SIZE(in_klen); IN_U32(in_hash); IN_SIZE(in_charge); IN_INT(in_j); IN_INT(in_i);
-  ASSUME(in_klen <= LRU_K);
-  ASSUME(in_charge < ((size_t)1 << 60));
-  build_shard(in_n, 0);
-  ASSUME(SH->capacity > 0 || in_n == 0);           /* capacity is fixed at creation: a cache of capacity 0 never holds an entry */
-  usage0 = SH->usage;
-  kd = mk_key(in_klen, LRU_K);
+/* call lru_shard_insert on the built pre-state (in_n cached handles) and check its whole effect */
+static void insert_run(int in_n, uint8_t *kd, size_t in_klen, uint32_t in_hash, size_t in_charge, int in_j, int in_i) {
+  ldb_slice_t key; lru_handle_t *e; int i, same = -1, nfreed = 0, last = -1;
   key.data = kd; key.size = in_klen; key.alloc = 0;
   for (i = 0; i < LRU_N; i++) if (i < in_n && key_is(G[i], in_hash, kd, in_klen)) same = i;
 
+  X.next_is_handle = 1;
   e = lru_shard_insert(SH, &key, in_hash, &g_val[I_NEW], in_charge, model_deleter);
 
   CHECK(mutex_ok(), "lru_shard_insert: runs under the shard mutex, released on return");
-  CHECK(e != NULL && idx_of(e) < 0 && X.mallocs >= 1 && !was_freed(e), "lru_shard_insert: returns a freshly allocated, live handle");
-  G[I_NEW] = e; snap(I_NEW); S[I_NEW].lru_pos = -1;
+  CHECK(e != NULL && idx_of(e) < 0 && X.mallocs >= 1 && e == (lru_handle_t *)X.mal[0] && !was_freed(e), "lru_shard_insert: returns a freshly allocated, live handle");
+#ifdef LRU_TYPED
+  CHECK(X.handle_n >= offsetof(lru_handle_t, key_data) + in_klen, "lru_shard_insert: the allocation has room for the handle header and the whole key");
+#endif
+  G[I_NEW] = (lru_handle_t *)X.mal[0]; e = G[I_NEW]; snap(I_NEW); S[I_NEW].lru_pos = -1;
   CHECK(e->value == (void *)&g_val[I_NEW] && e->deleter == model_deleter && e->charge == in_charge && e->hash == in_hash, "lru_shard_insert: the handle carries the caller's value, deleter, charge and hash");
   CHECK(e->key_length == in_klen && bytes_eq(e->key_data, kd, in_klen), "lru_shard_insert: the handle carries a copy of the key");
   if (SH->capacity == 0) {
@@ -792,7 +827,7 @@ void h_insert(void) {
     CHECK(SH->usage == 0 && SH->table.elems == 0 && X.frees == 0 && X.dels == 0, "lru_shard_insert: capacity 0: the cache stays empty");
   } else {
     CHECK(e->in_cache == 1 && e->refs == 2, "lru_shard_insert: the new entry is cached with two references (cache + caller)");
-    CHECK(same < 0 || finished(same), "lru_shard_insert: an entry under the same key is replaced: it leaves the cache (destroyed iff unreferenced)");
+    CHECK(same < 0 || finished(same), "lru_shard_insert: an entry under the same key is replaced: it leaves the cache (destroyed iff unreferenced, else detached)");
     /* termination condition of the eviction */
     CHECK(SH->usage <= SH->capacity || SH->list.next == &SH->list, "lru_shard_insert: afterwards usage <= capacity, or nothing evictable is left");
   }
@@ -811,5 +846,279 @@ void h_insert(void) {
     /* no needless eviction: before the youngest evicted entry went, usage still exceeded the capacity */
     CHECK(last < 0 || SH->usage + S[last].charge > SH->capacity, "lru_shard_insert: evicts only while usage exceeds capacity");
   }
+}
+
+/* fully symbolic pre-state (parked: see lru.json) */
+void h_insert(void) {
+  uint8_t *kd; int in_n = pick_n();
+  IN_SIZE(in_klen); IN_U32(in_hash); IN_SIZE(in_charge); IN_INT(in_j); IN_INT(in_i);
+  ASSUME(in_klen <= LRU_K);
+  ASSUME(in_charge < ((size_t)1 << 60));
+  build_shard(in_n, 0);
+  ASSUME(SH->capacity > 0 || in_n == 0);           /* capacity is fixed at creation: a cache of capacity 0 never holds an entry */
+  kd = mk_key(in_klen, LRU_K);
+  insert_run(in_n, kd, in_klen, in_hash, in_charge, in_j, in_i);
+  CANARY();
+}
+
+/* ------------------------------------------------------------------ scenarios
+ * lru_shard_insert and lru_shard_prune loop over entries; with a symbolic heap SHAPE CBMC's points-to sets merge
+ * the two list heads (both inside the shard struct) and every access turns into byte-level reasoning about the
+ * whole shard (measured: > 50 M clauses for two loop iterations).  The loop units therefore run on pre-states whose
+ * SHAPE is concrete per scenario - which handles are in use (mask), LRU order (perm), bucket pattern (pat), which
+ * existing key the new key equals (match) - while charges, capacity, reference counts >= 2, and the choice of the
+ * scenario are symbolic.  Symbolic hashes/keys are covered at the table level (lru.find .. lru.tbl_remove) and by
+ * the single-operation shard units (lru.lookup, lru.erase, lru.finish).
+ *   pat 0: every handle in its own bucket      (hash i      -> bucket i; the new key: bucket 3 or that of `match`)
+ *   pat 1: all in one bucket, different hashes (hash 4*i + 1)
+ *   pat 2: all in one bucket with the SAME hash, keys differ in their byte */
+static uint32_t scen_hash(int pat, int i) { return pat == 0 ? (uint32_t)i : pat == 1 ? (uint32_t)(4 * i + 1) : 7u; }
+
+static void build_shard_scen(int n, int mask, int perm, int pat) {
+  int i, j;
+  lru_handle_t *last[2] = {NULL, NULL};
+  ghost_reset();
+  X.statics = 1;
+  for (i = 0; i < LRU_M; i++) G[i] = NULL;
+  for (i = 0; i < 8; i++) { ARR0[i] = NULL; ARR1[i] = NULL; }
+  SH->table.length = LRU_LEN; SH->table.elems = 0; SH->table.list = ARR0; g_list0 = ARR0;
+  g_n = n;
+  SH->capacity = nondet_size(); SH->usage = 0;
+  SH->list.next = SH->list.prev = &SH->list;
+  SH->in_use.next = SH->in_use.prev = &SH->in_use;
+  for (i = 0; i < LRU_N; i++) if (i < n) {
+    lru_handle_t *h = &HB[i];
+    h->key_length = 1; h->key_data[0] = (uint8_t)(i + 1); h->hash = scen_hash(pat, i);
+    h->charge = nondet_size(); __CPROVER_assume(h->charge < ((size_t)1 << 60));
+    h->in_cache = 1; h->value = &g_val[i]; h->deleter = model_deleter; h->next = h->prev = NULL;
+    if ((mask >> i) & 1) { h->refs = nondet_u32(); __CPROVER_assume(h->refs >= 2 && h->refs < 0x80000000u); } else h->refs = 1;
+    G[i] = h;
+    tbl_link(&SH->table, h);
+    SH->usage += h->charge;
+  }
+  for (j = 0; j < 3; j++) {
+    i = PERM3[perm][j];
+    if (i < n && i < LRU_N) {
+      lru_handle_t *e = G[i]; int w = (mask >> i) & 1;
+      if (w == 0) { if (last[0] == NULL) { SH->list.next = e; e->prev = &SH->list; } else { last[0]->next = e; e->prev = last[0]; } last[0] = e; }
+      else { if (last[1] == NULL) { SH->in_use.next = e; e->prev = &SH->in_use; } else { last[1]->next = e; e->prev = last[1]; } last[1] = e; }
+    }
+  }
+  if (last[0] != NULL) { last[0]->next = &SH->list; SH->list.prev = last[0]; }
+  if (last[1] != NULL) { last[1]->next = &SH->in_use; SH->in_use.prev = last[1]; }
+  lst_scan(&SH->list, 0);
+  for (i = 0; i < LRU_N; i++) if (i < n) { snap(i); S[i].lru_pos = L.pos[0][i]; }
+  X.guard = 1;
+}
+
+/* =========================================================== lru.insert_s* */
+/* capacity: symbolic (> 0) unless an existing key is replaced - then the LRU list is modified inside the
+ * `if (lru->capacity > 0)` branch and only a concrete capacity lets symex keep the shape concrete afterwards;
+ * the charges stay symbolic, so every ordering of usage against the capacity is still covered */
+#define SCEN_CAP ((size_t)1 << 40)
+static void insert_scen(int n, int mask, int perm, int pat, int match) {
+  static uint8_t g_kd[2]; uint8_t *kd = g_kd; uint32_t hash;   /* static: symex keeps the key bytes constant */
+  IN_SIZE(in_charge); IN_INT(in_j); IN_INT(in_i);
+  ASSUME(in_charge < ((size_t)1 << 60));
+  build_shard_scen(n, mask, perm, pat);
+  if (match >= 0 || LRU_LEN < 4) SH->capacity = SCEN_CAP;   /* LRU_LEN 2: the resize happens inside that branch, too */
+  ASSUME(SH->capacity > 0);
+  if (match >= 0) { kd[0] = (uint8_t)(match + 1); hash = scen_hash(pat, match); }
+  else { kd[0] = 9; hash = scen_hash(pat, 3); }
+  insert_run(n, kd, 1, hash, in_charge, in_j, in_i);
+}
+#define SC(k, n, mask, perm, pat, match) case k: insert_scen(n, mask, perm, pat, match); break;
+void h_insert_s(void) {
+  IN_INT(in_scen);
+  switch (in_scen) {
+#if LRU_SCEN == 0      /* nothing in use: eviction may empty the cache */
+  SC(0, 3, 0, 0, 0, -1) SC(1, 3, 0, 3, 1, -1)
+#elif LRU_SCEN == 4    /* nothing in use, an unreferenced entry is replaced */
+  SC(0, 3, 0, 5, 2, 1) SC(1, 3, 0, 1, 0, 0)
+#elif LRU_SCEN == 5    /* LRU_LEN == 2: the insert triggers lru_table_resize (2 -> 4 buckets) */
+  SC(0, 2, 0, 0, 1, -1) SC(1, 2, 1, 0, 0, -1) SC(2, 2, 2, 0, 2, -1)
+#elif LRU_SCEN == 1    /* mixed: in-use entries between unreferenced ones in every position */
+  SC(0, 3, 1, 0, 0, -1) SC(1, 3, 2, 2, 1, -1) SC(2, 3, 4, 4, 2, -1) SC(3, 3, 5, 1, 1, -1)
+#elif LRU_SCEN == 2    /* replacement of an in-use / unreferenced entry in a mixed cache; everything in use */
+  SC(0, 3, 2, 0, 0, 1) SC(1, 3, 2, 3, 1, 0) SC(2, 3, 7, 0, 2, -1) SC(3, 3, 6, 5, 2, 2)
+#elif LRU_SCEN == 3    /* small caches */
+  SC(0, 0, 0, 0, 0, -1) SC(1, 1, 0, 0, 0, -1) SC(2, 1, 1, 0, 0, 0) SC(3, 2, 1, 2, 1, 1)
+#endif
+  default: ASSUME(0);
+  }
+  CANARY();
+}
+
+/* ============================================================ lru.prune_s* */
+static void prune_scen(int n, int mask, int perm, int pat) {
+  int i, nlru = 0; size_t keep = 0;
+  IN_INT(in_j);
+  build_shard_scen(n, mask, perm, pat);
+  for (i = 0; i < LRU_N; i++) if (i < n) { if (S[i].refs == 1) nlru++; else keep += S[i].charge; }
+
+  lru_shard_prune(SH);
+
+  CHECK(mutex_ok(), "lru_shard_prune: runs under the shard mutex, released on return");
+  CHECK(SH->list.next == &SH->list && SH->list.prev == &SH->list, "lru_shard_prune: the LRU list is empty afterwards");
+  CHECK(X.frees == nlru && X.dels == nlru, "lru_shard_prune: exactly the unreferenced entries are destroyed");
+  CHECK(SH->usage == keep && SH->table.elems == (uint32_t)(n - nlru), "lru_shard_prune: usage and element count are those of the in-use entries");
+  check_rep();
+  if (n > 0) {
+    ASSUME(in_j >= 0 && in_j < n);
+    CHECK(S[in_j].refs == 1 ? destroyed(in_j) : unchanged(in_j), "lru_shard_prune: an unreferenced entry is destroyed (deleter once with its key and value), an entry in use is untouched");
+  }
+}
+#define SP(k, n, mask, perm, pat) case k: prune_scen(n, mask, perm, pat); break;
+void h_prune_s(void) {
+  IN_INT(in_scen);
+  switch (in_scen) {
+  SP(0, 3, 0, 0, 0) SP(1, 3, 0, 4, 2) SP(2, 3, 1, 1, 1) SP(3, 3, 2, 2, 0) SP(4, 3, 4, 3, 2) SP(5, 3, 3, 5, 1) SP(6, 3, 6, 0, 2) SP(7, 3, 7, 0, 0)
+  SP(8, 0, 0, 0, 0) SP(9, 1, 0, 0, 0) SP(10, 2, 2, 0, 1)
+  default: ASSUME(0);
+  }
+  CANARY();
+}
+
+/* ###################################################################### cache level (sharding, dispatch) */
+
+/* ========================================================= lru.shard_index */
+uint32_t c_lru_shard(uint32_t hash)
+__CPROVER_assigns()
+/* a pure function of the hash (same key => same shard) that stays inside shard[LDB_SHARDS] */
+__CPROVER_ensures(__CPROVER_return_value < LDB_SHARDS)
+;
+void h_shard_index(void) {
+  IN_U32(in_hash);
+  (void)ldb_lru_shard(in_hash);
+  CANARY();
+}
+
+/* ================================================================ lru.hash */
+uint32_t c_lru_hash(const ldb_slice_t *s)
+__CPROVER_requires(__CPROVER_r_ok(s, sizeof(*s)) && X.hashes == 0)
+__CPROVER_assigns(X.hashes, X.hash_data, X.hash_size, X.hash_seed, X.hash_ret)
+/* exactly the key's bytes are hashed, once, and the hash function's value is returned unchanged */
+__CPROVER_ensures(X.hashes == 1 && X.hash_data == s->data && X.hash_size == s->size && __CPROVER_return_value == X.hash_ret)
+;
+void h_hash(void) {
+  ldb_slice_t s; IN_SIZE(in_klen);
+  HK[0].used = 0; HK[1].used = 0;
+  X.hashes = 0;
+  s.data = malloc(in_klen); s.size = in_klen; s.alloc = 0;
+  ASSUME(s.data != NULL);
+  (void)ldb_lru_hash(&s);
+  CANARY();
+}
+
+/* ================================================================== lru.id */
+uint64_t c_lru_id(ldb_lru_t *lru)
+__CPROVER_requires(__CPROVER_rw_ok(lru, sizeof(*lru)) && X.held == NULL && !X.lock_err && X.locks == 0 && X.unlocks == 0)
+__CPROVER_requires(lru->last_id < UINT64_MAX)                       /* 2^64 ids are never handed out */
+__CPROVER_assigns(lru->last_id, X.held, X.last, X.locks, X.unlocks, X.lock_err)
+/* ids are handed out in strictly increasing order: each call returns a value nobody got before */
+__CPROVER_ensures(__CPROVER_return_value == __CPROVER_old(lru->last_id) + 1 && __CPROVER_return_value > __CPROVER_old(lru->last_id) && lru->last_id == __CPROVER_return_value)
+/* the counter is read and written under id_mutex, which is released on return */
+__CPROVER_ensures(X.locks == 1 && X.unlocks == 1 && X.last == &lru->id_mutex && X.held == NULL && !X.lock_err)
+;
+void h_id(void) {
+  ldb_lru_t *c = malloc(sizeof(*c));
+  ASSUME(c != NULL);
+  X.held = NULL; X.last = NULL; X.lock_err = 0; X.locks = 0; X.unlocks = 0;
+  c->last_id = nondet_u64();
+  (void)ldb_lru_id(c);
+  CANARY();
+}
+
+/* ============================================================ lru.dispatch
+ * The four lru_shard_* entry points are swapped for recording models (goto-instrument --replace-calls, see
+ * lru.json); what they do is the subject of the shard-level units.  Checked here: every cache operation goes to
+ * shard[ldb_lru_shard(hash of the key)], with that hash, the caller's arguments, and hands back the shard's
+ * result; release goes to the shard derived from the handle's own hash (= the key's hash, lru.insert_s*). */
+static struct lru_disp {
+  int calls, which;                 /* which: 1 insert, 2 lookup, 3 release, 4 erase */
+  lru_shard_t *shard; const ldb_slice_t *key; uint32_t hash; void *value; size_t charge;
+  void (*deleter)(const ldb_slice_t *, void *); lru_handle_t *handle, *ret;
+  int prunes; int pruned[LDB_SHARDS]; int prune_foreign;
+  ldb_lru_t *cache;
+} D;
+lru_handle_t *model_shard_insert(lru_shard_t *lru, const ldb_slice_t *key, uint32_t hash, void *value, size_t charge, void (*deleter)(const ldb_slice_t *key, void *value)) {
+  D.calls++; D.which = 1; D.shard = lru; D.key = key; D.hash = hash; D.value = value; D.charge = charge; D.deleter = deleter;
+  return D.ret;
+}
+lru_handle_t *model_shard_lookup(lru_shard_t *lru, const ldb_slice_t *key, uint32_t hash) {
+  D.calls++; D.which = 2; D.shard = lru; D.key = key; D.hash = hash;
+  return D.ret;
+}
+void model_shard_release(lru_shard_t *lru, lru_handle_t *handle) { D.calls++; D.which = 3; D.shard = lru; D.handle = handle; }
+void model_shard_erase(lru_shard_t *lru, const ldb_slice_t *key, uint32_t hash) { D.calls++; D.which = 4; D.shard = lru; D.key = key; D.hash = hash; }
+void model_shard_prune(lru_shard_t *lru) {
+  int i, hit = 0;
+  for (i = 0; i < LDB_SHARDS; i++) if (lru == &D.cache->shard[i]) { D.pruned[i]++; hit = 1; }
+  if (!hit) D.prune_foreign = 1;
+  D.prunes++;
+}
+
+void h_dispatch(void) {
+  ldb_lru_t *c = malloc(sizeof(*c)); ldb_slice_t key; lru_handle_t hnd, ret_obj, *r; int i;
+  IN_SIZE(in_klen); IN_U32(in_hash); IN_INT(in_op); IN_SIZE(in_charge); IN_INT(in_ret_null);
+  ASSUME(c != NULL && in_klen <= LRU_K);
+  ghost_reset();
+  key.data = mk_key(in_klen, LRU_K); key.size = in_klen; key.alloc = 0;
+  HK[0].used = 1; HK[0].n = in_klen; HK[0].v = in_hash; HK[1].used = 0;       /* hash(key) = in_hash, arbitrary */
+  for (i = 0; i < LRU_K + 1; i++) HK[0].b[i] = (size_t)i < in_klen ? key.data[i] : 0;
+  D.calls = 0; D.which = 0; D.shard = NULL; D.key = NULL; D.hash = ~in_hash; D.handle = NULL; D.value = NULL; D.charge = ~in_charge; D.deleter = NULL;
+  D.ret = in_ret_null ? NULL : &ret_obj; D.cache = c; D.prunes = 0; D.prune_foreign = 0;
+  for (i = 0; i < LDB_SHARDS; i++) D.pruned[i] = 0;
+  hnd.hash = in_hash;                               /* lru.insert_s*: a handle carries the hash of its key */
+  ASSUME(in_op >= 1 && in_op <= 5);
+  if (in_op == 1) {
+    r = ldb_lru_insert(c, &key, &g_val[0], in_charge, model_deleter);
+    CHECK(D.calls == 1 && D.which == 1 && r == D.ret, "ldb_lru_insert: exactly one lru_shard_insert, its handle is returned");
+    CHECK(D.value == (void *)&g_val[0] && D.charge == in_charge && D.deleter == model_deleter, "ldb_lru_insert: value, charge and deleter are passed through");
+  } else if (in_op == 2) {
+    r = ldb_lru_lookup(c, &key);
+    CHECK(D.calls == 1 && D.which == 2 && r == D.ret, "ldb_lru_lookup: exactly one lru_shard_lookup, its result (handle or NULL) is returned");
+  } else if (in_op == 3) {
+    ldb_lru_release(c, &hnd);
+    CHECK(D.calls == 1 && D.which == 3 && D.handle == &hnd, "ldb_lru_release: exactly one lru_shard_release of that handle");
+  } else if (in_op == 4) {
+    ldb_lru_erase(c, &key);
+    CHECK(D.calls == 1 && D.which == 4, "ldb_lru_erase: exactly one lru_shard_erase");
+  } else {
+    ldb_lru_prune(c);
+    CHECK(D.prunes == LDB_SHARDS && !D.prune_foreign && D.calls == 0, "ldb_lru_prune: prunes shards of this cache only");
+    for (i = 0; i < LDB_SHARDS; i++) CHECK(D.pruned[i] == 1, "ldb_lru_prune: every shard exactly once");
+  }
+  if (in_op <= 4) {
+    /* one shard per hash value: insert, lookup, erase and release of the same key all meet in the same shard */
+    CHECK(ldb_lru_shard(in_hash) < LDB_SHARDS && D.shard == &c->shard[ldb_lru_shard(in_hash)], "dispatch: the operation runs on shard[ldb_lru_shard(hash of the key)] of this cache");
+    CHECK(in_op == 3 || (D.key == &key && D.hash == in_hash), "dispatch: the shard gets the caller's key and the hash of exactly that key");
+    CHECK(in_op == 3 || (X.hashes == 1 && X.hash_data == key.data && X.hash_size == key.size), "dispatch: the key is hashed once, over all its bytes");
+  }
+  CANARY();
+}
+
+/* ============================================================== lru.create */
+void h_create(void) {
+  ldb_lru_t *c; int i, ok_cap = 1, ok_empty = 1, ok_tbl = 1; size_t total, want;
+  IN_SIZE(in_capacity); IN_INT(in_j);
+  ASSUME(in_capacity <= SIZE_MAX - LDB_SHARDS);     /* beyond that capacity + 15 wraps (16 EiB cache) */
+  ghost_reset();
+
+  c = ldb_lru_create(in_capacity);
+
+  want = in_capacity / LDB_SHARDS + (in_capacity % LDB_SHARDS != 0);
+  for (i = 0; i < LDB_SHARDS; i++) {
+    lru_shard_t *s = &c->shard[i];
+    if (s->capacity != want) ok_cap = 0;
+    if (!(s->usage == 0 && s->list.next == &s->list && s->list.prev == &s->list && s->in_use.next == &s->in_use && s->in_use.prev == &s->in_use)) ok_empty = 0;
+    if (!(s->table.length == 4 && s->table.elems == 0 && s->table.list != NULL && s->table.list[0] == NULL && s->table.list[1] == NULL && s->table.list[2] == NULL && s->table.list[3] == NULL)) ok_tbl = 0;
+  }
+  CHECK(c != NULL && c->last_id == 0, "ldb_lru_create: id counter starts at 0");
+  CHECK(ok_cap, "ldb_lru_create: every shard gets ceil(capacity / 16): together at least the requested capacity, and 0 only for capacity 0");
+  CHECK(ok_empty, "ldb_lru_create: every shard starts with usage 0 and two empty circular lists");
+  CHECK(ok_tbl, "ldb_lru_create: every shard starts with an empty 4-bucket hash table");
+  total = ldb_lru_usage(c);
+  CHECK(total == 0 && X.locks == LDB_SHARDS && X.unlocks == LDB_SHARDS && X.held == NULL && !X.lock_err, "ldb_lru_usage: sums the shard usages, each read under its shard mutex");
   CANARY();
 }
